@@ -486,7 +486,7 @@ def erB (t : Nat) (r : Pool × Bool) : Pool × Bool := (er t r.1, r.2)
   unfold roomWaitCancelled; splits <;> simp
 
 @[simp] theorem roomGranted_er (p : Pool) (m : Nat) (r : Req) : (er t p).roomGranted m r = er t (p.roomGranted m r) := by
-  unfold roomGranted; simp; splits
+  unfold roomGranted; simp; splits <;> simp
 
 @[simp] theorem wakeWaitRoomCore_er (p : Pool) (m : Nat) (r : Req) : (er t p).wakeWaitRoomCore m r = er t (p.wakeWaitRoomCore m r) := by
   unfold wakeWaitRoomCore; simp; splits
